@@ -112,6 +112,9 @@ func (uaq *UnAckQueue) Push(s Queueable) error {
 	if uaq == nil {
 		return nil
 	}
+	// Client.Send and Client.SendRaw push from whatever goroutine calls them.
+	uaq.Lock()
+	defer uaq.Unlock()
 	pushIdx := uaq.lastId + 1
 	if len(uaq.Uslice) != 0 && uaq.Uslice[len(uaq.Uslice)-1].Id >= pushIdx {
 		pushIdx = uaq.Uslice[len(uaq.Uslice)-1].Id + 1
